@@ -344,7 +344,13 @@ def mutate_value(
 
     # If `transform` is provided, transform `value`
     if transform:
-        value = transform(value)
+        transformed = transform(value)
+        if transformed is not value:
+            # A freshly constructed `value` was ours to edit in place; what
+            # the transform handed back instead is not (it may be an object
+            # the caller, or the instance being mutated, still holds).
+            mutate_safe = inplace
+        value = transformed
 
     # If `attr_transforms` is provided, transform attributes
     if attr_transforms:
